@@ -10,8 +10,8 @@
 
 const char *verif_property = "C02";
 const char *verif_class_names[] = { "refused_then_retried", "two_in_flight", "deferred_notification", "size_at_limit", "size_beyond_limit", "fc_toggled_midburst",
-	"shm", "socket", "event_readable_checked", "response_from_callback", "response_from_outside", "three_clients", "ring_full_refusal", "sendv", "client_send_blocked_then_rescued", "receive_buffer_too_small", "events_drained_under_flow_control", NULL };
-enum { K_RETRY, K_INFLIGHT, K_DEFER, K_ATLIMIT, K_BEYOND, K_FC, K_SHM, K_SOCK, K_READABLE, K_RESPCB, K_RESPOUT, K_THREE, K_FULL, K_SENDV, K_RESCUED, K_SMALLBUF, K_EVFC };
+	"shm", "socket", "event_readable_checked", "response_from_callback", "response_from_outside", "three_clients", "ring_full_refusal", "sendv", "client_send_blocked_then_rescued", "receive_buffer_too_small", "events_drained_under_flow_control", "sendv_recv", "sendv_recv_with_response_waiting", NULL };
+enum { K_RETRY, K_INFLIGHT, K_DEFER, K_ATLIMIT, K_BEYOND, K_FC, K_SHM, K_SOCK, K_READABLE, K_RESPCB, K_RESPOUT, K_THREE, K_FULL, K_SENDV, K_RESCUED, K_SMALLBUF, K_EVFC, K_SENDRECV, K_SRQUEUED };
 const char *verif_rule =
 	"case = transport, negotiated maximum size, 1-3 clients and an op list: client send/sendv/recv/event_recv (timeout 0), server step (dispatch one ready descriptor chosen by the case), "
 	"server response/event of generated length from inside the message callback or from outside, rate-limit changes (OFF, OFF_2, NORMAL, FAST, SLOW), fc_enable_max changes, shrinking the "
@@ -214,25 +214,50 @@ extern "C" int verif_case(const uint8_t *data, size_t size, struct verif_report 
 
 	while (!vr_eof(&V) && !r->fail) {
 		unsigned op = vr_u8(&V) % 32; conn &c = C[vr_u8(&V) % NC];
-		if (op <= 9) {			/* client send / sendv */
+		if (op <= 9 || op == 31 || (op == 30 && !is_shm)) {	/* client send / sendv / sendv_recv (the latter with a zero timeout: one thread plays both sides) */
 			size_t hs = sizeof(struct qb_ipc_request_header), len = pick_len(hs);
 			if (c.req.size() >= 48) continue;	/* the client spins while the notification socket is full: keep clear of it in one thread */
 			struct qb_ipc_request_header *h = (struct qb_ipc_request_header *)sbuf;
 			fill_msg(sbuf, len, c.idx, c.nreq, 0, hs); h->id = 100; h->size = (int32_t)len;
-			ssize_t rc; bool v2 = op >= 8;
+			ssize_t rc; bool v2 = op >= 8, sr = op >= 30;
 			/* the model learns about the request before the call: if the client blocks, the server may consume it before the call returns */
 			uint32_t seq = c.nreq;
 			c.req.push_back(mmsg{ (uint32_t)len, seq });
 			int before = rescues;
+			bool resp_waiting = !c.resp.empty() && server_quiescent();	/* sendv_recv: an accepted response is already there to be picked up */
+			if (sr) memset(rbuf, 0x5c, 64);
 			send_begin();
-			if (v2 && len > hs + 4) { struct iovec iov[2] = { { sbuf, hs + 3 }, { sbuf + hs + 3, len - hs - 3 } }; rc = qb_ipcc_sendv(c.cl, iov, 2); VCLASS(r, K_SENDV); }
+			if (sr) {
+				struct iovec iov[2] = { { sbuf, hs + 3 }, { sbuf + hs + 3, len > hs + 3 ? len - hs - 3 : 0 } };
+				if (len > hs + 4) rc = qb_ipcc_sendv_recv(c.cl, iov, 2, rbuf, MAXMSG + 4096, 0);
+				else { iov[0].iov_len = len; rc = qb_ipcc_sendv_recv(c.cl, iov, 1, rbuf, MAXMSG + 4096, 0); }
+				VCLASS(r, K_SENDRECV);
+			}
+			else if (v2 && len > hs + 4) { struct iovec iov[2] = { { sbuf, hs + 3 }, { sbuf + hs + 3, len - hs - 3 } }; rc = qb_ipcc_sendv(c.cl, iov, 2); VCLASS(r, K_SENDV); }
 			else rc = qb_ipcc_send(c.cl, sbuf, len);
 			send_end();
 			if (rescues != before) { VCLASS(r, K_RESCUED); VLOG(r, "  (the client was blocked on the full notification socket until the server ran %d step(s))\n", rescues - before); }
-			vop(r, 1, c.idx, len);
-			VLOG(r, "client %d send len %zu seq %u -> %zd\n", c.idx, len, seq, rc);
+			vop(r, sr ? 7 : 1, c.idx, len);
+			VLOG(r, "client %d %s len %zu seq %u -> %zd\n", c.idx, sr ? "sendv_recv(timeout 0)" : "send", len, seq, rc);
 			if (r->fail) break;
-			if (rc == (ssize_t)len) {
+			if (sr && (rc > 0 || rc == -ETIMEDOUT)) {
+				/* the request went out; the receive half either handed out the oldest accepted response or found none */
+				if (len > MAXMSG) { VFAIL(r, "oversize-accepted", "client sendv_recv of %zu bytes accepted although the negotiated maximum is %zu", len, MAXMSG); break; }
+				c.nreq++;
+				if (c.req.size() >= 2) nt_inflight = true;
+				if (c.refused_pending) { nt_retry = true; VCLASS(r, K_RETRY); c.refused_pending = false; }
+				if (rc > 0) {
+					if (c.resp.empty()) { VFAIL(r, "response-phantom", "client %d: sendv_recv returned a response of %zd bytes although every accepted one was already delivered", c.idx, rc); break; }
+					mmsg m = c.resp.front(); size_t bad;
+					if ((size_t)rc != m.len) { VFAIL(r, "delivery-length", "client %d: sendv_recv delivered response seq %u with %zd bytes, sent with %u", c.idx, m.seq, rc, m.len); break; }
+					if (!check_msg(rbuf, rc, c.idx, m.seq, 1, sizeof(struct qb_ipc_response_header), &bad)) { VFAIL(r, "delivery-bytes", "client %d: sendv_recv: response seq %u differs at byte %zu", c.idx, m.seq, bad); break; }
+					c.resp.pop_front();
+					if (resp_waiting) VCLASS(r, K_SRQUEUED);
+				} else if (resp_waiting) {
+					VFAIL(r, "response-not-delivered", "client %d: sendv_recv sent its request and returned %zd although %zu accepted response(s) were waiting and the server had nothing left to do", c.idx, rc, c.resp.size()); break;
+				}
+			}
+			else if (rc == (ssize_t)len && !sr) {
 				if (len > MAXMSG) { VFAIL(r, "oversize-accepted", "client send of %zu bytes accepted although the negotiated maximum is %zu", len, MAXMSG); break; }
 				c.nreq++;
 				if (c.req.size() >= 2) nt_inflight = true;
